@@ -15,6 +15,7 @@ package http2_test
 import (
 	"fmt"
 	"io"
+	"math"
 	"net/http"
 	"os"
 	"sort"
@@ -111,6 +112,32 @@ type vfConn struct {
 	mode       string
 	goneAway   bool   // graceful GOAWAY sent: later streams are ignored, their DATA discarded
 	keepAlive  uint32 // the body-less request left in flight across the shutdown
+	blocked    bool   // the peer is not reading: the server's writer is blocked, its frames queue up
+}
+
+// block: the client stops reading and sends a PING, whose acknowledgement occupies the server's
+// writer; every frame the server produces from now on (RST_STREAM, WINDOW_UPDATE, ...) stays queued.
+func (c *vfConn) block() {
+	if c.blocked {
+		return
+	}
+	nc := c.st.cc.(*synctestNetConn)
+	nc.SetReadBufferSize(0)
+	nc.autoWait = false
+	c.st.fr.WritePing(false, [8]byte{1})
+	c.blocked = true
+}
+
+// unblock: the client resumes reading; the queued frames are recorded on the current line.
+func (c *vfConn) unblock() {
+	if !c.blocked {
+		return
+	}
+	nc := c.st.cc.(*synctestNetConn)
+	nc.SetReadBufferSize(math.MaxInt)
+	nc.autoWait = true
+	c.blocked = false
+	c.settle()
 }
 
 func (c *vfConn) sortedStreams() []*vfStream {
@@ -133,7 +160,9 @@ func (c *vfConn) settle() {
 	for _, s := range c.sortedStreams() {
 		c.collect(s)
 	}
-	c.drain()
+	if !c.blocked {
+		c.drain()
+	}
 }
 
 func (c *vfConn) collect(s *vfStream) {
@@ -300,6 +329,7 @@ func (c *vfConn) classifyData(sid uint32, ln, pad int64, es bool) uint32 {
 		return 0
 	}
 	connOnly := func() uint32 {
+		s.status = vsClosed // the server resets the stream (the RST_STREAM may still be queued)
 		if L > c.conn {
 			c.o.Stat("branch:excess-conn")
 			return sid
@@ -310,6 +340,9 @@ func (c *vfConn) classifyData(sid uint32, ln, pad int64, es bool) uint32 {
 	switch {
 	case s.status != vsOpen:
 		c.o.Stat("branch:data-on-closed")
+		if c.blocked {
+			c.o.Stat("branch:data-while-reset-queued")
+		}
 		return connOnly()
 	case s.declCL != -1 && s.bodyBytes+ln > s.declCL:
 		c.o.Stat("branch:data-past-content-length")
@@ -328,6 +361,7 @@ func (c *vfConn) classifyData(sid uint32, ln, pad int64, es bool) uint32 {
 		if L == c.conn+1 || L == s.win+1 {
 			c.o.Stat("branch:excess-by-one")
 		}
+		s.status = vsClosed
 		return sid
 	}
 	if L == c.conn || L == s.win {
@@ -351,6 +385,11 @@ func (c *vfConn) classifyData(sid uint32, ln, pad int64, es bool) uint32 {
 
 func vfExec(t *testing.T, mode string, ops []string, o *vu.Out) {
 	var c *vfConn
+	defer func() {
+		if c != nil && c.blocked {
+			c.unblock()
+		}
+	}()
 	for _, op := range ops {
 		base := strings.TrimSpace(strings.SplitN(op, "=>", 2)[0])
 		f := strings.Fields(base)
@@ -390,10 +429,46 @@ func vfExec(t *testing.T, mode string, ops []string, o *vu.Out) {
 			o.Op(base, "ok")
 			continue
 		}
+		// autoUnblock records the frames released by an implicit `unblock` as a line of its own
+		autoUnblock := func() {
+			line := "unblock"
+			if len(c.obs) > 0 {
+				line += " => " + strings.Join(c.obs, " ")
+			}
+			o.Op(line, "ok")
+			c.obs = nil
+			c.fcSeen = map[uint32]bool{}
+		}
 		o.Stat("op:" + f[0])
 		var expectFC uint32
 		valid := true
+		if c.blocked {
+			switch f[0] {
+			case "hexit", "hexitr", "bclose", "shutdown":
+				// handler teardown is deferred by a blocked writer in ways the peer cannot tell from
+				// the wire; these steps are not taken while the peer is not reading
+				c.obs = append(c.obs, "nohandler")
+				c.settle()
+				emit()
+				continue
+			case "quiesce":
+				c.unblock()
+				autoUnblock()
+			}
+		}
 		switch f[0] {
+		case "block":
+			if len(f) != 1 {
+				valid = false
+				break
+			}
+			c.block()
+		case "unblock":
+			if len(f) != 1 {
+				valid = false
+				break
+			}
+			c.unblock()
 		case "hdr":
 			if len(f) != 4 {
 				valid = false
@@ -468,6 +543,18 @@ func vfExec(t *testing.T, mode string, ops []string, o *vu.Out) {
 			if ln < 0 || pad < -1 || pad > 255 || ln+pad+1 > 1<<20 {
 				valid = false
 				break
+			}
+			if c.blocked {
+				L := ln
+				if pad >= 0 {
+					L += pad + 1
+				}
+				if s := c.streams[sid]; s == nil || L > c.conn || L > s.win {
+					// the refusal has to be observable on this line, and the frames queued so far
+					// precede the DATA frame: they get a line of their own
+					c.unblock()
+					autoUnblock()
+				}
 			}
 			expectFC = c.classifyData(sid, ln, pad, es)
 			if pad >= 0 {
@@ -547,7 +634,7 @@ func vfExec(t *testing.T, mode string, ops []string, o *vu.Out) {
 				break
 			}
 			s := c.streams[sid]
-			racing := s != nil && s.call != nil && !s.exited && s.pend == nil && !(c.keepAlive != 0 && s.id == c.keepAlive)
+			racing := s != nil && s.call != nil && !s.exited && s.pend == nil && !(c.keepAlive != 0 && s.id == c.keepAlive) && !c.blocked
 			if f[0] == "hexitr" && !racing {
 				if s != nil && s.pend != nil {
 					c.obs = append(c.obs, "busy")
@@ -865,6 +952,50 @@ func vfGen(r *vu.Rng, i int, mode string) []string {
 		s.buffered = 0
 		s.closed, s.open = true, false
 	}
+	if r.Chance(1, 6) {
+		// blocked-writer class: the peer stops reading, a stream is reset by the server (the
+		// RST_STREAM stays queued), the peer keeps sending DATA on it, resumes reading, and then
+		// probes the connection window on another stream: exactly the window, then one byte more
+		w := int64(InitialWindowSize) + int64(r.Intn(200000))
+		ops = []string{fmt.Sprintf("reset %d %d", w, w)}
+		cw := gflow{avail: InitialWindowSize}
+		cw.add(w - InitialWindowSize)
+		id := 1
+		charge := func(L int64) {
+			if L <= cw.avail {
+				cw.avail -= L
+				cw.add(L)
+			}
+		}
+		for rounds := r.Range(1, 3); rounds > 0; rounds-- {
+			switch r.Intn(3) {
+			case 0: // DATA past the declared Content-Length
+				cl := int64(r.Intn(2000))
+				ops = append(ops, fmt.Sprintf("hdr %d %d 0", id, cl), "block", fmt.Sprintf("data %d %d -1 0", id, cl+1+int64(r.Intn(50))))
+				charge(cl + 1)
+			case 1: // DATA after END_STREAM
+				ops = append(ops, fmt.Sprintf("hdr %d -1 0", id), fmt.Sprintf("data %d 10 -1 1", id), "block", fmt.Sprintf("data %d 7 -1 0", id))
+			default: // DATA after the peer's own reset... and on a stream the handler has left
+				ops = append(ops, fmt.Sprintf("hdr %d -1 0", id), fmt.Sprintf("hexit %d", id), "block", fmt.Sprintf("data %d 9 -1 0", id))
+			}
+			for q := r.Range(1, 4); q > 0; q-- {
+				L := int64(r.Range(1, 30000))
+				pad := int64(-1)
+				if r.Chance(1, 3) {
+					pad = int64(r.Intn(200))
+				}
+				ops = append(ops, fmt.Sprintf("data %d %d %d 0", id, L, pad))
+			}
+			ops = append(ops, "unblock")
+			id += 2
+		}
+		ops = append(ops, "quiesce", fmt.Sprintf("hdr %d -1 0", id))
+		// after quiesce everything has been refunded up to a batching residue the generator
+		// cannot see; the sharp probe is still: fill the window the peer knows, then one byte
+		ops = append(ops, fmt.Sprintf("data %d %d -1 0", id, w-4095), fmt.Sprintf("data %d 4095 -1 0", id), fmt.Sprintf("data %d 1 -1 0", id))
+		ops = append(ops, "quiesce")
+		return ops
+	}
 	if mode == "c10" && r.Chance(1, 5) {
 		// race class: many streams, each torn down while a detached goroutine reads its body
 		ops = ops[:0]
@@ -940,6 +1071,12 @@ func vfGen(r *vu.Rng, i int, mode string) []string {
 				openStream()
 			} else {
 				dataOp(s)
+			}
+		case k < 94:
+			if r.Bool() {
+				ops = append(ops, "block")
+			} else {
+				ops = append(ops, "unblock")
 			}
 		case k < 95:
 			ops = append(ops, "quiesce")
